@@ -633,6 +633,10 @@ theorem execWith_good {cfg : Cfg} {pol : Policy} {i : Nat} {run : Run} {sub : Su
         · rw [if_pos hb]
           exact ⟨hw, Chain.single (plain_seg_ok hw _ _ _ _ hopx hops), fun _ => Keeps.refl _⟩
         rw [if_neg hb]
+        by_cases h0 : t ≠ a ∧ cfg.noVb = true
+        · rw [if_pos h0]
+          exact ⟨hw, Chain.single (plain_seg_ok hw _ _ _ _ hopx hops), fun _ => Keeps.refl _⟩
+        rw [if_neg h0]
         by_cases h1 : t ≠ a ∧ pol.vb i a t = .err
         · rw [if_pos h1]
           exact ⟨hw, Chain.single (StepOK_bind (plain_seg_ok hw _ _ _ _ hopx hops) _ none rfl), fun _ => Keeps.refl _⟩
